@@ -301,25 +301,24 @@ func (e *Evaluator) evalExpr(expr Expr) (*Cell, error) {
 					e.stackTop.locals[k] = v
 				}
 
+				result := NewCell(NewValue(nil))
 				switch body := matchCase.Body.(type) {
 				case *StatementExpr:
-					val, err := e.evalExpr(body.Expr)
-					if err != nil {
-						return nil, err
-					}
-					return val, nil
+					result, err = e.evalExpr(body.Expr)
 				default:
-					err := e.evalStatement(body)
-					if err != nil {
-						return nil, err
-					}
+					err = e.evalStatement(body)
 				}
 
-				if err := e.popFrame(); err != nil {
+				// always pop the match frame, even when the body failed or
+				// left via next/break/continue/return
+				if popErr := e.popFrame(); popErr != nil {
+					return nil, popErr
+				}
+				if err != nil {
 					return nil, err
 				}
 
-				return NewCell(NewValue(nil)), nil
+				return result, nil
 			}
 		}
 		return NewCell(NewValue(nil)), nil
@@ -428,6 +427,10 @@ func (e *Evaluator) callFunction(exp *ExprCall, fn *Cell, args []*Value) (*Cell,
 		}
 
 		err := e.evalStatement(f.Body)
+		if popErr := e.popFrame(); popErr != nil {
+			return nil, popErr
+		}
+
 		var retVal *Value
 		if err == errReturn {
 			retVal = e.returnVal
@@ -435,10 +438,6 @@ func (e *Evaluator) callFunction(exp *ExprCall, fn *Cell, args []*Value) (*Cell,
 			return nil, err
 		} else {
 			retVal = nil
-		}
-
-		if err := e.popFrame(); err != nil {
-			return nil, err
 		}
 
 		if retVal != nil {
